@@ -127,6 +127,27 @@ func runBlockRepo(c *Case) ([]Obs, any) {
 				node = node2
 				repo = node.VerifBlocks()
 				return Obs{OK}
+			case "load_fault": // j : restart whose j-th storage operation returns an error.  A Load that reports the
+				// error means the process does not start: it is started again without a fault.  A Load that
+				// succeeds is what the node then runs with.
+				node2 := spynode.NewNode(cfg, store, nil, nil)
+				store.FailAt = store.OpCount() + int(op.Int(0))
+				err := node2.VerifBlocks().Load(ctx)
+				fired := store.Failed
+				store.FailAt = 0
+				store.Failed = false
+				if err != nil {
+					node3 := spynode.NewNode(cfg, store, nil, nil)
+					if err3 := node3.VerifBlocks().Load(ctx); err3 != nil {
+						return Obs{ERR, b2i(fired), -1}
+					}
+					node = node3
+					repo = node.VerifBlocks()
+					return Obs{OK, b2i(fired), 0}
+				}
+				node = node2
+				repo = node.VerifBlocks()
+				return Obs{OK, b2i(fired), 1}
 			case "reload": // Load on the SAME repository object (what a second Node.Run on one Node does)
 				if err := repo.Load(ctx); err != nil {
 					return Obs{ERR}
@@ -203,7 +224,7 @@ func runBlockRepo(c *Case) ([]Obs, any) {
 		})
 		result = append(result, obs)
 		switch op.Name {
-		case "add", "addn", "revert", "load", "reload", "save_race_revert":
+		case "add", "addn", "revert", "load", "load_fault", "reload", "save_race_revert":
 			snapshot()
 		}
 	}
